@@ -19,6 +19,7 @@ class SQLParser(Parser):
         ('nonassoc', LESS, LEQ, GREATER, GEQ, IN, NOT, BETWEEN, IS, IS_NOT, LIKE),
         ('left', PLUS, MINUS),
         ('left', STAR, DIVIDE, MODULO),
+        ('left', CONCAT),  # binds tighter than arithmetic and comparison (SQLite, MySQL with PIPES_AS_CONCAT)
         ('right', UMINUS),  # Unary minus operator, unary not
     )
 
